@@ -826,14 +826,16 @@ theorem splitFirst_slotOK (src : Bytes) (mc : UInt8) (tr : List Bytes) (v : Meta
   simp only at h
   split at h
   · cases h
-  · injection h with h
-    injection h with h1 h2
-    subst h1
-    split
-    · trivial
-    · split
-      · rename_i hc; exact hc
-      · rename_i hc; simpa [SlotOK] using hc
+  · split at h
+    · cases h
+    · injection h with h
+      injection h with h1 h2
+      subst h1
+      split
+      · trivial
+      · split
+        · rename_i hc; exact hc
+        · rename_i hc; simpa [SlotOK] using hc
 
 theorem scan_slotOK (mc : UInt8) (tr : List Bytes) : ∀ (rest before frag : Bytes) (skip : Nat),
     ∀ x ∈ (scanTemplate mc tr before frag skip rest).2, SlotOK tr x.1 := by
